@@ -29,16 +29,16 @@ func load() {
 	loaded = true
 	p := os.Getenv("SYMX_REPLAY")
 	if p == "" {
-		fmt.Println("SYMX-ERROR no SYMX_REPLAY file")
+		fmt.Fprintln(realStdout, "SYMX-ERROR no SYMX_REPLAY file")
 		os.Exit(5)
 	}
 	b, err := os.ReadFile(p)
 	if err != nil {
-		fmt.Println("SYMX-ERROR", err)
+		fmt.Fprintln(realStdout, "SYMX-ERROR", err)
 		os.Exit(5)
 	}
 	if err := json.Unmarshal(b, &rep); err != nil {
-		fmt.Println("SYMX-ERROR", err)
+		fmt.Fprintln(realStdout, "SYMX-ERROR", err)
 		os.Exit(5)
 	}
 }
@@ -66,7 +66,7 @@ func Float64(name string) float64 { return math.Float64frombits(get(name)) }
 func IntRange(name string, lo, hi int) int {
 	v := int(get(name))
 	if v < lo || v > hi {
-		fmt.Println("SYMX-ASSUME-FAIL range", name, v)
+		fmt.Fprintln(realStdout, "SYMX-ASSUME-FAIL range", name, v)
 		os.Exit(4)
 	}
 	return v
@@ -88,7 +88,7 @@ func String(name string, n int) string { return string(Bytes(name, n)) }
 func Choose(name string, k int) int {
 	v := int(get(name))
 	if v < 0 || v >= k {
-		fmt.Println("SYMX-ASSUME-FAIL choose", name, v)
+		fmt.Fprintln(realStdout, "SYMX-ASSUME-FAIL choose", name, v)
 		os.Exit(4)
 	}
 	return v
@@ -97,7 +97,7 @@ func Choose(name string, k int) int {
 // Assume restricts the inputs considered.
 func Assume(c bool) {
 	if !c {
-		fmt.Println("SYMX-ASSUME-FAIL")
+		fmt.Fprintln(realStdout, "SYMX-ASSUME-FAIL")
 		os.Exit(4)
 	}
 }
@@ -105,7 +105,7 @@ func Assume(c bool) {
 // Assert states the property: must hold for every input reaching it.
 func Assert(c bool, label string) {
 	if !c {
-		fmt.Println("SYMX-ASSERT-FAIL", label)
+		fmt.Fprintln(realStdout, "SYMX-ASSERT-FAIL", label)
 		os.Exit(3)
 	}
 }
@@ -115,10 +115,10 @@ func Assert(c bool, label string) {
 func AssertKnown(c bool, label string, known bool, id string) {
 	if !c {
 		if known {
-			fmt.Println("SYMX-KNOWN-FAIL", id, label)
+			fmt.Fprintln(realStdout, "SYMX-KNOWN-FAIL", id, label)
 			os.Exit(6)
 		}
-		fmt.Println("SYMX-ASSERT-FAIL", label)
+		fmt.Fprintln(realStdout, "SYMX-ASSERT-FAIL", label)
 		os.Exit(3)
 	}
 }
@@ -138,7 +138,7 @@ func Observe(label string, v ...any) {
 		for _, x := range v {
 			line += " " + fmt.Sprint(x)
 		}
-		fmt.Println(line)
+		fmt.Fprintln(realStdout, line)
 	}
 }
 
@@ -193,11 +193,35 @@ func SharedMap(m any) {}
 // inconclusive. Used only where the remaining obligation is "no Go panic".
 func SoftOpaque(on bool) {}
 
-// PrintedCount / PrintedAt: what the code under test has written with fmt.Print* / fmt.Fprint*
-// (standard output and standard error alike) on the current path, one entry per call, in order.
-// Natively nothing is captured (0 / "").
-func PrintedCount() int      { return 0 }
-func PrintedAt(k int) string { return "" }
+// Printed is everything the code under test has written with fmt.Print* / fmt.Fprint* (standard
+// output and standard error alike) on the current path, concatenated in order. Natively the two
+// standard streams are redirected into a scratch file on the first call (the harness protocol lines
+// keep going to the real standard output), so a replay observes the same text.
+func Printed() string {
+	if capFile == nil {
+		f, err := os.CreateTemp("", "symx-printed-")
+		if err != nil {
+			return ""
+		}
+		capFile = f
+		os.Stdout, os.Stderr = f, f
+	}
+	b, _ := os.ReadFile(capFile.Name())
+	return string(b)
+}
+
+var capFile *os.File
+
+// realStdout carries the harness protocol lines (SYMX-...) also while Printed() has redirected os.Stdout.
+var realStdout = os.Stdout
+
+// Done is called by the generated native main when the harness returned.
+func Done() {
+	if capFile != nil {
+		os.Remove(capFile.Name())
+	}
+	fmt.Fprintln(realStdout, "SYMX-DONE")
+}
 
 // Cost is the number of SSA instructions the engine has executed on the current path (0 natively):
 // an exact, deterministic cost meter for "time bounded by a modest function of the input length".
